@@ -13,6 +13,12 @@ Model of the join-order search of the optimizer (C09), as the code is:
   `optimize_join_order` for a left-deep tree of scans: relations in leaf order, conditions in
   post-order, the tree DPccp answers replaces the plan, `None` keeps the plan.
 
+REPAIRED behaviour (commit COMMIT, findings C09-joinorder-cond-flipped / -self-cond-dropped):
+`plan_join` resolves a condition in either orientation (`appliedConds`; the join-order search still
+hands a condition over as written, whichever way round the new join's inputs are), and
+`collect_join_tree` refuses a join tree with a condition over a single variable (`hasSelf`). The
+former behaviour is kept as `Old.*` (regression theorems in `Props/C09Join.lean`).
+
 Statistics and the cost model enter as an ARBITRARY comparison `lt new existing` ("the new
 candidate is strictly cheaper"); `costLt` is the instance that decides like the real `f64` cost
 model on statistics without ties (used by the driver only).
@@ -63,6 +69,7 @@ def build (n : Nat) (es : List Edge) : Graph :=
 def crosses (s1 s2 : Nat) (e : Edge) : Bool :=
   (has s1 e.frm && has s2 e.to) || (has s2 e.frm && has s1 e.to)
 
+/-- `JoinGraph::get_conditions`: the conditions of the crossing edges, as written -/
 def getConditions (g : Graph) (s1 s2 : Nat) : List Edge := g.edges.filter (crosses s1 s2)
 
 def areConnected (g : Graph) (s1 s2 : Nat) : Bool := g.edges.any (crosses s1 s2)
@@ -153,14 +160,25 @@ def covered : Tree → Bool
   | .leaf _ => true
   | .join l r cs => cs.all (crossesL (leaves l) (leaves r)) && covered l && covered r
 
-/-- the planner's hash join (`plan_join`) resolves the left expression of a condition in the left
-input and the right expression in the right input and silently skips a condition it cannot resolve:
-a condition is applied only if it is oriented like the join -/
+/-- the left expression of the condition is over the left input, the right one over the right input -/
 def orientedAt (L R : List Nat) (e : Edge) : Bool := L.contains e.frm && R.contains e.to
 
+/-- every condition sits at a join whose left input holds the relation of its left expression and
+whose right input holds the relation of its right expression -/
+def oriented : Tree → Bool
+  | .leaf _ => true
+  | .join l r cs => cs.all (orientedAt (leaves l) (leaves r)) && oriented l && oriented r
+
+/-- the planner's hash join (`plan_join`, repaired) resolves a condition side by side in either
+orientation and skips one it cannot resolve -/
 def appliedConds : Tree → List Edge
   | .leaf _ => []
-  | .join l r cs => appliedConds l ++ appliedConds r ++ cs.filter (orientedAt (leaves l) (leaves r))
+  | .join l r cs => appliedConds l ++ appliedConds r ++ cs.filter (crossesL (leaves l) (leaves r))
+
+/-- `plan_join` before the repair: left expression in the left input only -/
+def Old.appliedConds : Tree → List Edge
+  | .leaf _ => []
+  | .join l r cs => Old.appliedConds l ++ Old.appliedConds r ++ cs.filter (orientedAt (leaves l) (leaves r))
 
 def flippedConds : Tree → List Edge
   | .leaf _ => []
@@ -189,8 +207,20 @@ def leftDeep (n : Nat) (es : List Edge) : Tree := leftDeepGo es (n - 1) 1 (.leaf
 def extractConds (n : Nat) (es : List Edge) : List Edge :=
   (List.range n).flatMap (fun lvl => es.filter (fun e => level e == lvl))
 
-/-- `reorder_joins` on the left-deep plan -/
+/-- a condition whose two expressions speak about the same variable -/
+def hasSelf (es : List Edge) : Bool := es.any (fun e => e.frm == e.to)
+
+/-- `reorder_joins` on the left-deep plan (repaired: `collect_join_tree` refuses a tree with a
+condition over a single variable) -/
 def reorder (n : Nat) (es : List Edge) (lt : Tree → Tree → Bool) : Tree :=
+  if n < 2 ∨ hasSelf es = true then leftDeep n es
+  else
+    match optimize (build n (extractConds n es)) lt with
+    | some t => t
+    | none => leftDeep n es
+
+/-- `reorder_joins` before the repair -/
+def Old.reorder (n : Nat) (es : List Edge) (lt : Tree → Tree → Bool) : Tree :=
   if n < 2 then leftDeep n es
   else
     match optimize (build n (extractConds n es)) lt with
